@@ -291,6 +291,59 @@ end Martian.ResolverStatic
 namespace Martian.ResolverStatic
 open Martian.Dataflow
 
+/-! ## … and plain calls with a run-time `disabled` control (refinement modulo `J.erase`) -/
+
+def callCleanB (c : Call) : Bool :=
+  (c.binds.all fun b => Exp.clean b.exp) &&
+  match c.disabled with
+  | some d => Exp.clean d.2
+  | none => true
+
+def disabledOkEB (st : StructTable) (n : Nat) (P : Program) (sT cT : String → Ty) (c : Call) : Bool :=
+  !c.mapped &&
+  (match c.disabled with
+   | some (false, e) => hasTyB st n sT cT ⟨"bool", 0, 0⟩ e
+   | _ => false) &&
+  (c.binds.all fun b => !b.split) &&
+  (P.insOf c.callee).all fun p =>
+    match c.binds.find? (fun b => b.param == p.name) with
+    | some b => hasTyB st n sT cT p.ty b.exp
+    | none => true
+
+def callOkEB (st : StructTable) (n : Nat) (P : Program) (sT cT : String → Ty) (c : Call) : Bool :=
+  callCleanB c && (callOkTB st n P sT cT c || disabledOkEB st n P sT cT c)
+
+def callsOkEB (st : StructTable) (n : Nat) (P : Program) (sT : String → Ty) :
+    List (String × Ty) → List Call → Bool
+  | _, [] => true
+  | L, c :: cs => callOkEB st n P sT (callTyOfB L) c && callsOkEB st n P sT (L ++ [(c.id, callTyMB c)]) cs
+
+def pipelineOkEB (st : StructTable) (n : Nat) (P : Program) (pins outs : List Param)
+    (calls : List Call) (ret : List (String × Exp)) : Bool :=
+  callsOkEB st n P (selfTyOfB pins) [] calls &&
+  outs.all fun p =>
+    match ret.lookup p.name with
+    | some e => Exp.clean e &&
+      hasTyB st n (selfTyOfB pins) (callTyOfB (calls.map fun c => (c.id, callTyMB c))) p.ty e
+    | none => true
+
+/-- decidable typing hypothesis of `resolver_refines_den_disabled_checked` -/
+def wellTypedEB (P : Program) : Bool :=
+  structsOkB P.table &&
+  (P.callables.all fun e => P.table.lookup e.1 == some e.2.outs) &&
+  (P.callables.all fun e =>
+    match e.2 with
+    | .stage _ _ => true
+    | .pipeline pins outs calls ret => pipelineOkEB P.table P.table.length P pins outs calls ret) &&
+  callOkB P.table P.table.length P.insOf (selfTyOfB []) (callTyOfB []) P.top &&
+  (P.top.binds.all fun b => !b.split) &&
+  P.top.binds.all fun b => Exp.clean b.exp
+
+end Martian.ResolverStatic
+
+namespace Martian.ResolverStatic
+open Martian.Dataflow
+
 /-- nesting depth of a callable in the call graph (0 for stages / unknown names), with fuel -/
 def callDepth (P : Program) : Nat → String → Nat
   | 0, _ => 0
